@@ -8,3 +8,27 @@ mod bucket_list_result;
 mod bucket_object;
 mod bucket_object_field;
 mod downloaded_bucket_object;
+
+/// Verification seam: when the `NEXRAD_VERIF_S3_ENDPOINT` environment variable is set, rewrites
+/// `https://<bucket>.s3.amazonaws.com<rest>` to `<endpoint>/<bucket><rest>` so that requests can be
+/// served by a loopback S3 simulator. Without the variable the URL is returned unchanged.
+#[cfg(feature = "verif-hooks")]
+pub(crate) fn verif_endpoint(path: String) -> String {
+    const SCHEME: &str = "https://";
+    const HOST_SUFFIX: &str = ".s3.amazonaws.com";
+
+    let endpoint = match std::env::var("NEXRAD_VERIF_S3_ENDPOINT") {
+        Ok(endpoint) if !endpoint.is_empty() => endpoint,
+        _ => return path,
+    };
+
+    if let Some(without_scheme) = path.strip_prefix(SCHEME) {
+        if let Some(host_end) = without_scheme.find(HOST_SUFFIX) {
+            let bucket = &without_scheme[..host_end];
+            let rest = &without_scheme[host_end + HOST_SUFFIX.len()..];
+            return format!("{}/{}{}", endpoint.trim_end_matches('/'), bucket, rest);
+        }
+    }
+
+    path
+}
